@@ -11,6 +11,7 @@ import NanoVerif.Model.Naming
 import NanoVerif.Model.Csv
 import NanoVerif.Model.Valid
 import NanoVerif.Model.PaintedLayers
+import NanoVerif.Model.Ninja
 /-
 Correspondence driver.  One JSON object per input line: {"op": ..., ...}; one JSON object per
 output line.  Run: `lake env lean --run Driver.lean < ops.jsonl`.
@@ -159,8 +160,47 @@ partial def jPNode : PNode → Json
   | .glyph id => obj [("k", "glyph"), ("id", Json.str (toString id))]
   | .composite a l => obj [("k", "composite"), ("alpha", jQ a), ("layers", Json.arr (l.map jPNode).toArray)]
 
+/-- one step of a ninja-model history; returns the new directory, the edges that produced a new output, `visible` -/
+def ninjaStep (b : BuildDir) (j : Json) : Except String (BuildDir × Bool) := do
+  let a ← getArr j
+  match a with
+  | [k, c] =>
+    if (← getStr k) = "edit" then return (edit b (← getNat c), true)
+    else if (← getStr k) = "invoke" then return (invoke (← getNats c) b, true)
+    else .error "bad ninja op"
+  | [k, c, t] =>
+    if (← getStr k) = "rename" then return (renameOver b (← getNat c) (← getNat t), true) else .error "bad ninja op"
+  | [k, cmds, jj, lv] =>
+    if (← getStr k) = "fault" then
+      let leave ← match lv with
+        | .str "removed" => pure Leave.removed
+        | .str "kept" => pure Leave.kept
+        | .str "late" => pure Leave.late
+        | g => do pure (Leave.garbage (← getNat g))
+      return invokeFault (← getNats cmds) (← getNat jj) leave b
+    else .error "bad ninja op"
+  | _ => .error "bad ninja op"
+
+def jDir (old : BuildDir) (b : BuildDir) (vis : Bool) : Json :=
+  let ran := (List.range b.outs.length).filter fun i =>
+    match b.outs[i]?.join with
+    | some o => decide (old.clock < o.mtime)
+    | none => false
+  obj [("contents", Json.arr ((contents b.outs).map (fun c => match c with | some n => jI n | none => Json.null)).toArray),
+       ("ran", Json.arr (ran.map (fun i => jI (Int.ofNat i))).toArray), ("visible", Json.bool vis)]
+
 def dispatch (op : String) (j : Json) : Except String Json := do
   match op with
+  | "ninja-history" =>
+      let src ← getNats (← field j "source")
+      let ops ← getArr (← field j "ops")
+      let mut b : BuildDir := emptyDir ⟨src.getD 0 0, src.getD 1 0⟩
+      let mut out : Array Json := #[]
+      for o in ops do
+        let (b', vis) ← ninjaStep b o
+        out := out.push (jDir b b' vis)
+        b := b'
+      return obj [("states", Json.arr out)]
   | "painted-layers" =>
       let body ← (← getArr (← field j "body")).mapM getSvgNode
       match paintedLayers body with
